@@ -332,7 +332,7 @@ def windows_blobs():
     return out
 
 
-NAMES = ["domain.test", "", "a", "dömäin.tést", "日本.example", "\U0001F511.forest", "x" * 300, "\U00010000\U0010FFFF"]
+NAMES = ["domain.test", "", "a", "dömäin.tést", "日本.example", "\U0001F511.forest", "x" * 300, "\U00010000\U0010FFFF", "\ufeff", "\ufeffdomain.test", "dom\ufeffain\ufffe", "\uffff", "a\x00b"]
 SIDS = ["S-1-5-21-3337337973-3297078028-437386066-512", "S-1-1-0", "", "S-1-5-١", "\U0001F600", "S" * 200]
 U32 = [0, 1, 2 ** 31, 2 ** 32 - 1, 361, 16, 3]
 CONTENT_LENS = [0, 1, 2, 16, 126, 127, 128, 129, 255, 256, 257, 1000, 65535, 65536, 65537, 70000]
